@@ -209,7 +209,7 @@ func (e *Enc) execBlock(b *ssa.BasicBlock, isEntry bool) error {
 			return nil
 		}
 		gc := e.sc.Declare(fmt.Sprintf("g%d", b.Index), SBool)
-		e.sc.Assert(Eq(gc, Or(conds...)))
+		e.sc.AssertDef(gc.S, Eq(gc, Or(conds...)))
 		g = gc
 		e.cur = e.mergeStates(states, conds)
 	}
@@ -937,7 +937,7 @@ func (e *Enc) execUnOp(x *ssa.UnOp) error {
 	case token.MUL:
 		lv := e.lvalOf(x.X)
 		e.checkNilLV(lv, x.X, x.Pos())
-		v := e.load(lv)
+		v := e.purify(e.load(lv))
 		e.define(x, v)
 		c := e.vals[x]
 		e.sc.Assert(Implies(e.curGuard, e.tr.rangeAssumption(c, x.Type(), 0)))
@@ -1032,6 +1032,22 @@ func (e *Enc) binop(op token.Token, a, b Term, opType types.Type, at ssa.Instruc
 	}
 	if a.Sort == SReal || b.Sort == SReal {
 		a, b = ToReal(a), ToReal(b)
+		// integer-valued floats (syntactically to_real of an integer term): sums and differences are
+		// exact below 2^53, which is an obligation here; the arithmetic then stays in the integers
+		if op == token.ADD || op == token.SUB {
+			if wa, ok := intWitness(a); ok {
+				if wb, ok := intWitness(b); ok {
+					o := "+"
+					if op == token.SUB {
+						o = "-"
+					}
+					w := App(SInt, o, wa, wb)
+					e.oblige("FP.exact", "", nil, And(App(SBool, "<=", T("(- 9007199254740992)", SInt), w), App(SBool, "<=", w, T("9007199254740992", SInt))),
+						"sum/difference of integer-valued float64 values must stay within 2^53 (then it is exact)", at.Pos())
+					return App(SReal, "to_real", w)
+				}
+			}
+		}
 		switch op {
 		case token.ADD:
 			return e.rnd(App(SReal, "+", a, b))
@@ -1132,11 +1148,23 @@ func (e *Enc) convert(v Term, from, to types.Type, at ssa.Instruction) Term {
 		return App(SInt, "+", App(SInt, "mod", App(SInt, "-", v, lo), mod), lo)
 	case fs == SInt && ts == SReal:
 		// exact below 2^53, rounded above
-		r := ToReal(v)
-		big := T("9007199254740992", SInt)
-		return Ite(And(App(SBool, "<=", App(SInt, "-", big), v), App(SBool, "<=", v, big)), r, e.rnd(r))
+		// exact for integers up to 2^53. By default that magnitude is an obligation (FP.exact) and the
+		// conversion is then exact; a contract may declare `fp-inexact` to get the rounded value instead.
+		if e.fc != nil && e.fc.FPInexact {
+			r := e.rnd(ToReal(v))
+			e.sc.AssertKeyed(r.S+" ", Implies(And(App(SBool, "<=", T("(- 9007199254740992)", SInt), v), App(SBool, "<=", v, T("9007199254740992", SInt))), Eq(r, ToReal(v))))
+			return r
+		}
+		if _, isConst := at.(*ssa.Convert).X.(*ssa.Const); !isConst {
+			e.oblige("FP.exact", "", nil, And(App(SBool, "<=", T("(- 9007199254740992)", SInt), v), App(SBool, "<=", v, T("9007199254740992", SInt))),
+				"integer converted to float64 must be at most 2^53 in magnitude (then the conversion is exact)", at.Pos())
+		}
+		return ToReal(v)
 	case fs == SReal && ts == SInt:
 		e.assumed["float64 to integer conversions stay within the integer range"] = true
+		if w, ok := intWitness(v); ok {
+			return w
+		}
 		return App(SInt, "rtrunc", v)
 	case fs == SReal && ts == SReal:
 		return v
@@ -1484,4 +1512,18 @@ func allAllocEdges(phi *ssa.Phi) bool {
 		}
 	}
 	return len(phi.Edges) > 0
+}
+
+// intWitness: t is syntactically (to_real k) for an integer term k, or an integer-valued literal.
+func intWitness(t Term) (Term, bool) {
+	if strings.HasPrefix(t.S, "(to_real ") && strings.HasSuffix(t.S, ")") {
+		inner := t.S[len("(to_real ") : len(t.S)-1]
+		if readSexp(inner) == inner {
+			return Term{inner, SInt}, true
+		}
+	}
+	if strings.HasSuffix(t.S, ".0") && isDigits(strings.TrimSuffix(t.S, ".0")) {
+		return Term{strings.TrimSuffix(t.S, ".0"), SInt}, true
+	}
+	return Term{}, false
 }
